@@ -30,6 +30,9 @@ mod truncate;
 #[cfg(test)]
 mod tests;
 
+#[cfg(feature = "verif")]
+pub(crate) mod verif_hooks;
+
 pub(crate) mod permutation;
 
 pub use circuit::Circuit;
